@@ -269,7 +269,7 @@ Theorem C08_explicit_fill_is_used : forall {T} (OP : ops T) (f dflt v : T),
   grid_value (effective_fill None dflt) None = dflt.
 Proof. intros. repeat split. Qed.
 Print Assumptions C08_explicit_fill_is_used.
-Example C08_ex_fill_zero : grid_value (effective_fill (Some 0%Q) (1 # 0)%Q) None = 0%Q /\ classify QO (effective_fill (Some 0%Q) 7%Q) 0%Q = None.
+Example C08_ex_fill_zero : grid_value (effective_fill (Some 0%Q) 127%Q) None = 0%Q /\ classify QO (effective_fill (Some 0%Q) 7%Q) 0%Q = None.
 Proof. split; reflexivity. Qed.
 
 (* masked-array entry point of fornav: the result is masked where _mask_helper (regenerated from ewa.py) says so, which
